@@ -39,7 +39,7 @@ def run(ck, tier, seed):
     ck.extra["impl"] = {}
     if h.summary:
         ck.traces += h.summary["extra"]["faces"]
-        ck.extra["impl"]["synthesised"] = dict(h.summary["extra"], configurations=n)
+        ck.extra.setdefault("impl", {})["synthesised"] = dict(h.summary["extra"], configurations=n)
     # code -> spec on shipped fonts: the independent reader's reference, every code point, both paths
     fonts = os.path.join(tmp, "fonts.ndjson")
     with open(fonts, "w") as fo:
@@ -55,7 +55,7 @@ def run(ck, tier, seed):
     vlib.absorb(ck, h2)
     if h2.summary:
         ck.traces += h2.summary["extra"]["faces"]
-        ck.extra["impl"]["shipped_all_codepoints"] = h2.summary["extra"]
+        ck.extra.setdefault("impl", {})["shipped_all_codepoints"] = h2.summary["extra"]
         ck.exhaustive = True
         ck.extra["exhaustive_note"] = "every one of the 0x110000 code points queried on direct and cached faces of every shipped font"
     ck.assumptions += ["OpenType cmap rule as written in spec/Cmap.tla (Ref) and, for shipped fonts, in fontgen/sfnt.py (independent reader)",
